@@ -2182,7 +2182,7 @@ coap_block_test_q_block(coap_session_t *session, coap_pdu_t *actual) {
     return COAP_INVALID_MID;
   }
 
-  coap_session_new_token(session, &token_len, token);
+  coap_session_new_token_lkd(session, &token_len, token);
   coap_add_token(pdu, token_len, token);
   /* Use a resource that the server MUST support (.well-known/core) */
   coap_add_option(pdu, COAP_OPTION_URI_PATH,
